@@ -123,6 +123,16 @@ def le(a, b):
     return ge(b, a)
 
 
+def nonsingular(A):
+    """The square matrix A is invertible (exact in the symbolic reading; |det| above round-off natively)."""
+    import numpy as np
+    A = np.asarray(A, dtype=complex)
+    if A.shape[0] == 0:
+        return True
+    scale = max(1e-300, float(np.max(np.abs(A)))) ** A.shape[0]
+    return bool(abs(np.linalg.det(A)) > 1e-9 * scale)
+
+
 def raised(result, *classes):
     """For contracts with `total = True`: the outcome is passed as `result`; True iff it is an exception of a class."""
     return isinstance(result, Raised) and (not classes or isinstance(result.exc, tuple(classes)))
